@@ -111,6 +111,12 @@ func StaleReads() int { return 0 }
 // MaxAlloc is the largest make() so far on this path (engine only).
 func MaxAlloc() int { return 0 }
 
+// AllocLimit makes any make() whose size depends on the input and can exceed n a violation (engine only).
+func AllocLimit(n int) {}
+
+// AllocCut ends (without verdict) every path that allocates an input-sized buffer larger than n: a stated cut (engine only).
+func AllocCut(n int) {}
+
 func Assume(c bool) {
 	if !c {
 		panic(assumeFailed{"assumption false"})
